@@ -62,6 +62,14 @@ def gen(run):
             cases.append({"text": "\n".join(again) + "\n", "origin": f"{name}:{how}:twice", "tpl": name})
         run.states += 1 + len(seen)
         run.transitions += len(seen)
+    # the result goes into the variable that is also the operand (RUN f(X, X): parameters are passed by reference)
+    for stmt in ("V = INT( V )", "W = INT( W ) + INT( W )", "M( 2 ) = INT( M( 2 ) )", "V = ABS( INT( V ) )", "V$ = STR$( VAL( V$ ) )", "V$ = HEX$( LEN( V$ ) )", 'V$ = STRING$( 2 , V$ )',
+                 'V = INSTR( 1 , V$ , "B" ) + V', "V = INT( V ) : V = INT( V / 2 )", "W = BUTTON( W + 1 )", "V = VAL( V$ ) + INT( V )"):
+        for vals in ("V = -2.5 : W = -0.25 : M( 2 ) = -7.5", "V = 2.5 : W = 0.75 : M( 2 ) = 7.5", "V = -3 : W = -1 : M( 2 ) = 0"):
+            text = K.program_for(["DIM M( 12 ) , N$( 5 ) , Q( 3 , 3 )", vals + ' : V$ = "AB" : A = 1', stmt])
+            cases.append({"text": text, "origin": f"self:{stmt}:{vals}", "tpl": "self"})
+    run.states += 33
+    run.transitions += 33
     # every simple statement template inside every control context (IF arms taken and not taken, FOR body, after / before
     # another statement, after a remark), key operand shapes in all slots
     from vf.gen import spaces
